@@ -349,7 +349,7 @@ impl Prop for C13 {
                "assumptions": ["all layers use default font page 0"]})
     }
     fn total(&mut self, ctx: &Ctx) -> u64 {
-        ctx.tier.pick(60_000, 5_000_000)
+        ctx.tier.pick(600_000, 5_000_000)
     }
     fn run_case(&mut self, ctx: &mut Ctx, k: u64) {
         let case = self.case_for(ctx, k);
